@@ -224,7 +224,20 @@ class Run:
     def replay(self, h, r):
         tests = [p for p in r.playbacks if p["kind"] != "cover"]
         if not tests:
-            return False, None, "Kani produced no concrete playback test"
+            sweep = self.spec.get("native_sweep")
+            if not sweep:
+                return False, None, "Kani produced no concrete playback test"
+            # Kani emits no playback for panics raised inside std with a runtime-formatted message: fall back to the
+            # property's native sweep over the harnesses' finite domain (replay step only; the solver made the decision)
+            ok, out = run_native_test(self.spec, self.stage, sweep)
+            os.makedirs(os.path.join(VERIF, "replays"), exist_ok=True)
+            path = os.path.join(VERIF, "replays", "%s-%s.json" % (self.pid, h.name))
+            with open(path, "w") as f:
+                json.dump({"property": self.pid, "harness": h.name, "failed_check": r.checks_failed[0][0],
+                           "location": r.checks_failed[0][1], "native_sweep_test": sweep, "playback_test": "",
+                           "reproduced_natively": ok, "native_output_tail": out[-3000:],
+                           "repo_rev": self.stage.repo_rev()}, f, indent=1)
+            return ok, path, "native sweep passed" if not ok else ""
         test = tests[0]
         ok, out = replay_test(self.spec, self.stage, test["test"], self.staged_sources)
         os.makedirs(os.path.join(VERIF, "replays"), exist_ok=True)
@@ -308,6 +321,15 @@ class Run:
         log("[%s] OK tier=%s harnesses=%d checks=%d nontrivial=%d wall=%.0fs" %
             (self.pid, self.tier, len(hs), evaluations, nontrivial, time.time() - self.t0))
         return 0
+
+
+def run_native_test(spec, stage, test_name):
+    """run one native #[test] that lives in a staged harness module (compiled with cfg(kani) by `cargo kani playback`)"""
+    cmd = ["cargo", "kani", "playback", "-Z", "concrete-playback", "-Z", "stubbing", "-p", spec["package"], "--", test_name]
+    rc, out, dt, to = core.sh(cmd, cwd=stage.ws, timeout=1800)
+    ran = re.search(r"running 1 test", out) is not None
+    failed = re.search(r"test result: FAILED", out) is not None
+    return bool(ran and failed), out
 
 
 def replay_test(spec, stage, test_text, staged_sources):
